@@ -38,13 +38,19 @@ def run_one(m, unit):
 
 
 def main():
-    units = sys.argv[1:]
+    args = sys.argv[1:]
+    only = None
+    if "--only" in args:
+        i = args.index("--only"); only = args[i + 1]; del args[i:i + 2]     # substring of the mutation name
+    units = args
     jobs = []
     for p in sorted(glob.glob(os.path.join(VERIF, "units", "*", "mutations.toml"))):
         unit = os.path.basename(os.path.dirname(p))
         if units and unit not in units:
             continue
         for m in tomllib.load(open(p, "rb")).get("m", []):
+            if only and only not in m["name"]:
+                continue
             jobs.append((m, unit))
     bad = 0
     before = set(glob.glob(os.path.join(VERIF, "replays", "*")))
